@@ -3,6 +3,7 @@ From Coq Require Import List NArith ZArith Bool.
 From SWH.lib Require Import Bytes Dec Hex GitHeader Headers CutLast.
 From SWH.model Require Import Meta.
 From SWH.proofs Require Import MetaProofs.
+From SWH.proofs Require MetaExamples.
 From SWH Require Import Generated.
 Import ListNotations.
 Open Scope N_scope.
